@@ -525,7 +525,7 @@ func ruleBIP9Edges(p *Program, r *Report) {
 			param = "‹" + prm.Name() + "›"
 		}
 	}
-	for _, a := range f.Accepts() {
+	for _, a := range f.AcceptsRaw() {
 		from := "?"
 		for _, at := range a.Atoms {
 			if strings.HasPrefix(at, param+" == ") {
